@@ -260,6 +260,7 @@ type round struct {
 
 func (r *round) begin(lastIndex uint64) {
 	r.Ordinal, r.Start, r.LastIndex = r.Ordinal+1, time.Now(), lastIndex
+	r.End = time.Time{} // this round is not finished yet
 }
 func (r *round) finish()                { r.End = time.Now() }
 func (r *round) finished() bool         { return !r.End.IsZero() }
